@@ -15,10 +15,11 @@
      fn 5    Region.get_unique_protoclusters (both branches); order = the set the function builds
      fn 6    CDSResults.to_json definition_domains / HMMDetectionResults.enabled_types (sorted sets of str)
      fn 7    Feature.to_biopython: sorted notes, sorted qualifier keys
-     fn 8    CDSResults.annotate: CORE gene functions added in the iteration order of the Set[str] of definition domains
+     fn 8    CDSResults.annotate: CORE gene functions added in the order of sorted(Set[str] of definition domains)
      fn 9    cluster_prediction.filter_results on real identity-hashed hit objects (no observable order: every child's
-             result must be one of the results of C13.Model.filter_results over all rank assignments)
-     fn 10   terpene_analysis.filter_incomplete (gather_by_query sets sorted by query_start only)
+             result must be THE result of C13.Model.filter_results, which is evaluated over all rank assignments and
+             must be the same for all of them - the best hit of a group is searched in hit-list order)
+     fn 10   terpene_analysis.filter_incomplete (gather_by_query sets sorted by the total key of refine_hmmscan_results)
      fn 11   terpene_analysis.analyse_cluster end to end on the shipped profile properties (only run_terpene_hmmscan,
              an external binary, is replaced): prediction JSON as written and in canonical forms
 
@@ -49,6 +50,9 @@ FN_NAME = {1: "refine_hmmscan_results(neighbour_mode=True)", 2: "refine_hmmscan_
            8: "CDSResults.annotate (CORE gene functions)", 9: "cluster_prediction.filter_results (identity-hashed hits)",
            10: "terpene filter_incomplete", 11: "terpene analyse_cluster (prediction JSON)"}
 
+# texts of the finding classes of this check.  All ten are REPAIRED in the code (known_findings.json: status fixed), so none
+# is tolerated: a difference between children inside a class is reported as a counterexample "(class X, not recorded as
+# known)"; a text is only printed as KNOWN-FINDING if its class is recorded with status "known" again.
 KNOWN_TEXT = {
     "unique_protoclusters_set_order":
         "Region.get_unique_protoclusters of a region that does not cross the origin returns protoclusters with identical "
@@ -636,7 +640,7 @@ def child_terpene(_fn, args, _rng, _keep):
 
 
 def terpene_canonical(as_json):
-    """ the prediction JSON with exactly the order effects of the recorded terpene findings undone: subtypes sorted
+    """ the prediction JSON with exactly the order effects of the (repaired) terpene findings undone: subtypes sorted
         (terpene_subtypes_set_order); substrates / products of every reaction and the top level products list sorted
         (terpene_reaction_intersection_set_order; the data-file order of unmerged reactions is fixed, sorting hides
         nothing else); the reactions list of a domain and the domain list of a gene sorted (their order follows the order of
@@ -966,7 +970,7 @@ WITNESS_SINGLES_SAME_PRODUCT = {"fn": 4, "args": {"config": {"n": 400, "circular
                                                                         (1, [(100, 200, 1)], [(170, 180, 1)], 0),
                                                                         (2, [(150, 300, 1)], [(250, 260, 1)], 2)]},
                                                   "order": [0, 1, 2]}}
-# witnesses of the findings still present in the code (status known): C17-K4 .. C17-K8
+# witnesses of the findings C17-K4 .. C17-K10 (all seven repaired in the code: regression corpus, run first, every time)
 WITNESS_ANNOTATE = {"fn": 8, "args": {"defs": [["r1", ["PKS_KS", "PKS_AT", "ACP"]], ["t1", ["a", "b"]]]}}
 WITNESS_ANNOTATE_E2E = {"fn": 3, "args": {
     "length": 9000, "rules": [[5000, 1000], [5000, 1000]], "rule_names": ["r1", "t1"],
@@ -1017,6 +1021,11 @@ def filter_model_outputs(fr_cases):
     return table, len(flats)
 
 
+def filter_score_tie(args):
+    """ class filter_results_score_tie_set_order: two hits of one gene with the same bitscore """
+    return any(len({hit[4] for hit in hits}) != len(hits) for hits in args["cds"])
+
+
 def formation_ties(config):
     extents = [tuple((part[0], part[1]) for part in e) for _p, e, _c, _q in config["protos"]]
     return len(set(extents)) != len(extents)
@@ -1060,8 +1069,8 @@ RULE = ("every case runs in child processes with PYTHONHASHSEED = 0..5 (quick) /
         "= other set order); inputs rich in ties: refinement hits with equal starts / ends / scores / e-values and duplicated "
         "fragments (generator of C13 plus equal-start clones), also through terpene filter_incomplete (plus complete hits of "
         "other profiles at the same start); filter_results on identity-hashed hit objects (generator of C13, at most 5 hits "
-        "per gene, many bitscore ties; every child's result must be a result of C13.Model.filter_results for SOME rank "
-        "assignment, all assignments enumerated); CDSResults.annotate with 1-3 cluster types of 0-4 definition domains; "
+        "per gene, many bitscore ties; C13.Model.filter_results is evaluated for ALL rank assignments, must give one result, "
+        "and every child's result must be that result); CDSResults.annotate with 1-3 cluster types of 0-4 definition domains; "
         "linear records with 1-4 rules (names chosen so that string order differs from numeric and case order; 45% of the "
         "rules with a second profile `p or q` so that genes get two definition domains; categories c/NRPS/PKS/terpene/RiPP) "
         "and genes on both strands incl. pairs with identical coordinates and equal starts, gaps on the cutoff boundaries, "
@@ -1076,8 +1085,9 @@ RULE = ("every case runs in child processes with PYTHONHASHSEED = 0..5 (quick) /
         "regions built directly from candidate clusters (1-6 protoclusters, identical coordinates, equal starts, "
         "origin-crossing regions with bridging protoclusters, same product and coordinates with other cores in both "
         "branches); sets of rule/profile-like strings (prefixes, case, digits, empty); notes and qualifier keys in a per-child "
-        "arrival order.  Per case: all children must agree (the property; a difference inside a recorded finding class is "
-        "counted and printed as KNOWN-FINDING, anything else is a counterexample), each child's output must equal the model at "
+        "arrival order.  The witnesses of the ten repaired findings (C17-K1..K10) run first on every run.  Per case: all "
+        "children must agree (the property; a difference inside a finding class recorded with status known would be "
+        "counted and printed as KNOWN-FINDING - none is: any difference is a counterexample, labelled with its class), each child's output must equal the model at "
         "the order that child observed, and fn 105 checks the documented order of get_unique_protoclusters.  non-trivial = the "
         "case contains a tie (two elements that the stage's sort key has to separate, or a duplicated element) or at least "
         "two elements in a hashed set; distinct by the flat encoding of the hash-seed-0 child")
@@ -1157,13 +1167,21 @@ def run(chk):
             import c13
             first_flat = [PROP, 9] + c13.enc_fr(case["args"]["eqgs"], case["args"]["order"],
                                                 [[tuple(h) for h in hits] for hits in case["args"]["cds"]])[2:]
-            # correspondence by membership: every child's result is one of the model's results over all layouts
+            # the model itself must not depend on the layout (C17_filter_results_layout_perm, evaluated)
+            if len(fr_models[idx]) != 1:
+                chk.violation("counterexample", "C13.Model.filter_results gives different results for two assignments of "
+                              "set-iteration ranks (memory layouts) to the same hits",
+                              {"theorem_or_correspondence": "C17_filter_results_layout_perm / model over all layouts",
+                               "function": 9, "input": case, "model_over_all_layouts": sorted(fr_models[idx])[:6]})
+            # correspondence: every child's result is the model's result (whatever layout the child had)
             for seed, res in zip(seeds, per_seed):
                 kept = tuple(res["extra"].get("kept", ()))
                 chk.count("filter_results_child_results_checked_for_membership")
                 if kept not in fr_models[idx]:
                     chk.violation("broken-correspondence", "filter_results on identity-hashed hits returns a result that "
-                                  "C13.Model.filter_results gives for NO assignment of set-iteration ranks",
+                                  "C13.Model.filter_results gives for NO assignment of set-iteration ranks"
+                                  + (" (class filter_results_score_tie_set_order: two hits of a gene tie on the bitscore)"
+                                     if filter_score_tie(case["args"]) else ""),
                                   {"theorem_or_correspondence": "model vs implementation / " + FN_NAME[9], "function": 9,
                                    "input": case, "hash_seed": seed, "implementation": list(kept),
                                    "model_over_all_layouts": sorted(fr_models[idx])[:6]})
@@ -1227,7 +1245,7 @@ def run(chk):
                 klass = [k for k in e2e if k not in known][0]
             elif fn == 8 and nontrivial(case, None):
                 klass = "annotate_definition_domains_set_order"
-            elif fn == 9 and len(fr_models[idx]) > 1:
+            elif fn == 9 and filter_score_tie(case["args"]):
                 klass = "filter_results_score_tie_set_order"
             elif fn == 10 and nontrivial(case, None):
                 klass = "terpene_start_tie_set_order"
